@@ -6,7 +6,7 @@
    [copy_below_file_refused]. *)
 From AF Require Import Lib.Bytes Lib.Path Lib.Ops Gen.Consts Model.MemFile Model.MemFs Model.WfOps Model.Union Model.Cow
   Model.Cache Proofs.MemFsBasics Proofs.MemFsPath Proofs.MemFsWF Proofs.MemBelow Proofs.MemFsStep Proofs.MemFsInv
-  Proofs.MemBelowRefused Proofs.MemFsBelow Proofs.CacheProof.
+  Proofs.MemBelowRefused Proofs.MemFsBelow Proofs.CacheProof Proofs.CopyFailedCreate.
 From AF Require Proofs.FaultyMem.
 Local Open Scope Z_scope.
 
@@ -264,6 +264,11 @@ Proof.
     assert (Ho : m_step sb (Open name) = (bump (fst (alloc_handle sb (mkH fb 0 0 false true))), RHandle (length (mhandles sb)))).
     { rewrite m_step_bump. cbn [m_step_raw]. unfold m_open. fold key. rewrite Hl. reflexivity. }
     rewrite Ho, copy_file_prep, Hprep. unfold copy_body. rewrite Hcr. cbn [res_err].
+    (* copyFile removes the name after the failed Create: there is no such entry, the Remove is refused *)
+    rewrite after_failed_create_today.
+    assert (Hrm : m_step (bump (bump sl)) (Remove name) = (bump (bump (bump sl)), RErr (EW KNotExist))).
+    { rewrite m_step_bump. cbn [m_step_raw]. unfold m_remove. fold key. rewrite !lookup_bump, Hfree. reflexivity. }
+    rewrite Hrm. cbn [fst].
     eexists. eexists. split; [reflexivity|]. split; [reflexivity|].
     (* closing the read-only base handle *)
     rewrite m_step_bump. cbn [m_step_raw]. unfold m_hop.
